@@ -21,12 +21,16 @@ def main():
     ok_tests = "136 passed; 0 failed" in t and "FAILED" not in t
     d1 = sh("cargo run --offline -q --release 2>&1 | tail -3; exit ${PIPESTATUS[0]}", os.path.join(wt, "demo"))
     with_rc = sh("cargo run --offline -q --release >/dev/null 2>&1; echo $?", os.path.join(wt, "demo")).stdout.strip()
-    sh("git stash -- src Cargo.toml", wt)
+    # (not `git stash`: the stash is shared by all worktrees of a repository)
+    tmpd = os.path.join(wt, ".import_mut.diff")
+    open(tmpd, "w").write(diff)
+    assert sh("git apply -R --whitespace=nowarn .import_mut.diff", wt).returncode == 0
     try:
         without_rc = sh("cargo run --offline -q --release >/dev/null 2>&1; echo $?", os.path.join(wt, "demo")).stdout.strip()
         d2 = sh("cargo run --offline -q --release 2>&1 | tail -2", os.path.join(wt, "demo"))
     finally:
-        sh("git stash pop", wt)
+        assert sh("git apply --whitespace=nowarn .import_mut.diff", wt).returncode == 0
+        os.unlink(tmpd)
     print("tests:", t.strip().replace("\n", " | "))
     print("demo with change rc=%s: %s" % (with_rc, d1.stdout.strip()[-300:]))
     print("demo without change rc=%s: %s" % (without_rc, d2.stdout.strip()[-200:]))
@@ -44,7 +48,7 @@ def main():
         shutil.copy(os.path.join(wt, "REPORT.md"), dst)
     meta = {"kind": "sub-agent mutation (fourth batch: asked for subtle changes at sites not used before)",
             "property_given": pid, "breaks": [pid], "also_run": also, "what": what,
-            "confirmed": "in scratch worktree %s: `cargo test --offline` 136+7 pass with the change; demo exits %s with the change and 0 without (git stash)" % (wt, with_rc),
+            "confirmed": "in scratch worktree %s: `cargo test --offline` 136+7 pass with the change; demo exits %s with the change and 0 without (git apply -R)" % (wt, with_rc),
             "source": "independent sub-agent given only the property text, a scratch worktree and the list of code sites already used by earlier agents"}
     json.dump(meta, open(os.path.join(dst, "meta.json"), "w"), indent=1, ensure_ascii=False)
     print("imported", dst)
